@@ -484,7 +484,7 @@ func init() {
 	replaceOutside("C12", "the interleaving quantifier itself and data-race freedom", "schedules with more preemptions than the bound, interleavings of unsynchronised memory accesses between two scheduling points, and data-race freedom as such (no happens-before tracking): replacing the atomic publication by a plain field would NOT be detected; removing or narrowing Mux.mu is (lost update)")
 
 	ext("C13", "goroutine model (context bound 2 / 3, scheduling points at every pool operation, atomic load and network read / write): two requests served concurrently by one mux, every mix of HTTP transcoding, gRPC and gRPC-web text, payloads of 12 and 2 bytes competing for one recycled 32-byte buffer",
-		HarnessSpec{Name: "VerifH_conc_requests", Concurrent: true, Covers: []string{"http", "grpc", "grpc-web-text"}})
+		HarnessSpec{Name: "VerifH_conc_requests", Concurrent: true, Covers: []string{"http", "grpc", "grpc-web-text", "grpc-compressed"}})
 	replaceOutside("C13", "data-race freedom, true concurrency, the proxy's stream pumps", "data-race freedom as such (no happens-before tracking), more than two concurrent requests, schedules beyond the context bound, interleavings of unsynchronised memory accesses between two scheduling points, the proxy's stream pumps; pooled-buffer aliasing and pooled gzip reader / writer reuse are decided across consecutive AND concurrent requests")
 
 	addProp(&PropSpec{
